@@ -1,5 +1,5 @@
 """Sidecar: contracts on the real functions of /repo, keyed by file::qualname.  Nothing here edits /repo."""
-MODULES=['bits_reg','dsl','mem','sched','nets','upblk','gendag','portrules','mambaff','sccwrap','watched','netrules']
+MODULES=['bits_reg','dsl','mem','sched','nets','upblk','gendag','portrules','mambaff','sccwrap','watched','netrules','vcdfn']
 
 def rtl_specs():
   from . import rtl_arb, rtl_queues, rtl_cksum
@@ -152,9 +152,9 @@ PROPERTIES={
    note="MagicMemoryCL.up_mem / MagicMemoryRTL.up_mem and the delay/stall components are exercised only by the bounded stand-in (CL method scheduling and greenlets are outside pyvc/rtlvc). Ports use disjoint address regions in the stand-in, so inter-port ordering is not constrained.",
    explanation="memory primitives proved deductively; system-level in-order/timing-independence checked natively on enumerated timing configurations (bounded)",
    extra=['contracts:c18_extra'], require_cover=False, assumptions=["Bits data passed to write_bytearray_bits has at least 8 bits (always 8*nbytes in the memories)"]),
- 'C16': dict(level='other', bounded_only=True,
-   claim="Bounded stand-in only (no obligation proved): on 17 designs (zoo families A and C samples, a 96-stage and a 10-stage delay line with a struct signal, a shared net and a never-changing signal, a 64-bit signal walking through values whose (width,value) hashes coincide) and 2 (quick) / 6 (thorough) seeded input sequences, the VCD file written by VcdGenerationPass - read back by an independent parser written here - declares every signal of every component with its width and gives it at every cycle exactly the packed value the simulator held; the clock toggles exactly once per cycle; the text-wave record holds the same values. The symbol generator, extracted mechanically from the real source, yields 100000 pairwise distinct printable symbols.",
-   note="dump_vcd_inner's change compression is not under a discharged contract (strings and eval are outside pyvc). Labelled bounded.",
+ 'C16': dict(level='other',
+   claim="Mixed. Proved (arbitrary nets, values and cycle counts): the per-cycle VCD writer dump_vcd_inner writes a value line for exactly the nets whose value string differs from the one last written, makes the current strings the remembered ones and leaves every other entry alone, stamps the falling / rising clock edges 100n+50 / 100n+100 and advances the cycle counter by one. The header (scopes, $var names, symbols, initial values), the text-wave pass and the composition with the simulator are covered by the bounded stand-in: on 17 designs (zoo families A and C samples, a 96-stage and a 10-stage delay line with a struct signal, a shared net and a never-changing signal, a 64-bit signal walking through values whose (width,value) hashes coincide) and 2 (quick) / 6 (thorough) seeded input sequences, the VCD file written by VcdGenerationPass - read back by an independent parser written here - declares every signal of every component with its width and gives it at every cycle exactly the packed value the simulator held; the clock toggles exactly once per cycle; the text-wave record holds the same values. The symbol generator, extracted mechanically from the real source, yields 100000 pairwise distinct printable symbols.",
+   note="In the proof of dump_vcd_inner, eval(repr(signal)).to_bits().to_vcd_str() is a pure function of the signal and print() is reduced to which net positions get a line; recurse_models, the symbol generator and PrintTextWavePass are not under discharged contracts. The stand-in is labelled bounded.",
    explanation="executable statement of the property on enumerated designs and seeded inputs",
    extra=['contracts:c16_extra'], require_cover=False, assumptions=["file writes are not reordered"]),
  'C10': dict(level='other',
